@@ -41,7 +41,7 @@ impl Tier {
             c.feas_timeout_s = 20.0;
             c.max_paths = 20000;
             c.max_decisions = 1500;
-            c.wall_budget_s = 3600.0;
+            c.wall_budget_s = 900.0;
             c.validate_paths = 8;
         } else {
             c.query_timeout_s = 10.0;
@@ -64,6 +64,8 @@ macro_rules! run_h {
                 let out = $crate::eng::run_native(&rt.1, &rt.2, &|| $f::<f64>($($arg),*));
                 $pr.replay_out = Some(out);
             }
+        } else if $pr.over_budget() {
+            $pr.skipped.push(cfg.name.clone());
         } else if $pr.only.as_ref().map_or(true, |o| cfg.name.contains(o.as_str())) {
             let rep = $crate::eng::explore(&cfg, &|| $f::<$crate::sym::Sym>($($arg),*), &|| $f::<f64>($($arg),*));
             $pr.add(rep);
@@ -98,6 +100,8 @@ pub fn run_jobs(pr: &mut PropRun, jobs: Vec<Job>, threads: usize) {
     let jobs: Vec<Job> = jobs.into_iter().filter(|j| only.as_ref().map_or(true, |o| j.0.name.contains(o.as_str()))).collect();
     let next = AtomicUsize::new(0);
     let out: Mutex<Vec<(usize, crate::eng::Report)>> = Mutex::new(vec![]);
+    let skipped: Mutex<Vec<String>> = Mutex::new(vec![]);
+    let (t0, budget) = (pr.t0, pr.budget_s);
     std::thread::scope(|sc| {
         for _ in 0..threads.max(1) {
             sc.spawn(|| loop {
@@ -106,6 +110,10 @@ pub fn run_jobs(pr: &mut PropRun, jobs: Vec<Job>, threads: usize) {
                     break;
                 }
                 let (cfg, f) = &jobs[i];
+                if t0.elapsed().as_secs_f64() > budget {
+                    skipped.lock().unwrap().push(cfg.name.clone());
+                    continue;
+                }
                 let mut c = cfg.clone();
                 c.threads = 1;
                 let rep = crate::eng::explore(&c, &|| f(false), &|| f(true));
@@ -113,6 +121,7 @@ pub fn run_jobs(pr: &mut PropRun, jobs: Vec<Job>, threads: usize) {
             });
         }
     });
+    pr.skipped.extend(skipped.into_inner().unwrap());
     let mut v = out.into_inner().unwrap();
     v.sort_by_key(|x| x.0);
     let quiet = v.len() > 24;
